@@ -21,10 +21,16 @@ def chain_scalar_lemma(U, name, ctx, R, ix, d, entry, axioms, extra_last=None):
             z3.ForAll([k_, k2_], z3.Implies(z3.And(k_ >= 0, k2_ == k_ + 1, k2_ < d), prod(k2_) == T.rmul(prod(k_), entry(k2_))),
                       patterns=[z3.MultiPattern(prod(k_), prod(k2_))])]
     kk = z3.Int('kk')
-    U.lemma(f'chain-is-the-running-product({name}).base', ctx + pdef, T.chain(R, ix, 0) == T.sc(prod(0)), axioms=axioms, mode='ematch',
-            kind='lemma-base')
-    U.lemma(f'chain-is-the-running-product({name}).step', ctx + pdef + [kk >= 1, kk < d, T.chain(R, ix, kk - 1) == T.sc(prod(kk - 1))],
-            T.chain(R, ix, kk) == T.sc(prod(kk)), axioms=axioms, mode='ematch', kind='lemma-step')
+    # step 1: every slice that the chain multiplies is the 1 x 1 matrix [[entry(k)]]   (a statement about the cores alone)
+    U.lemma(f'slices-are-1x1-with-the-expected-entry({name})', ctx + [kk >= 0, kk < d], T.sl(R[kk], ix[kk]) == T.sc(entry(kk)),
+            axioms=axioms, mode='ematch', kind='lemma')
+    slices = z3.ForAll([kk], z3.Implies(z3.And(0 <= kk, kk < d), T.sl(R[kk], ix[kk]) == T.sc(entry(kk))), patterns=[T.sl(R[kk], ix[kk])])
+    # step 2: induction along the chain, using only the slice values, the chain recursion and mm(sc x, sc y) = sc(x y)
+    small = T.axioms('chain', 'elem')
+    U.lemma(f'chain-is-the-running-product({name}).base', [slices, d >= 1] + pdef, T.chain(R, ix, 0) == T.sc(prod(0)), axioms=small,
+            mode='ematch', kind='lemma-base')
+    U.lemma(f'chain-is-the-running-product({name}).step', [slices] + pdef + [kk >= 1, kk < d, T.chain(R, ix, kk - 1) == T.sc(prod(kk - 1))],
+            T.chain(R, ix, kk) == T.sc(prod(kk)), axioms=small, mode='ematch', kind='lemma-step')
     return prod, pdef + [z3.ForAll([kk], z3.Implies(z3.And(0 <= kk, kk < d), T.chain(R, ix, kk) == T.sc(prod(kk))),
                                    patterns=[T.chain(R, ix, kk)])]
 
@@ -114,7 +120,7 @@ def u_delta(U):
         # two steps: (1) equational: the entry is rmul(s, |v|) at the position and 0 elsewhere; (2) arithmetic: s * |v| = v
         U.post('value-is-s*w^d-at-the-position-and-0-elsewhere', ctx + facts + mdef + [Q(d - 1)] + powfact,
                T.ent(T.chain(R, ix, d - 1), 0, 0) == z3.If(match(d - 1), T.rmul(s_, absv), 0), axioms=AXE, mode='ematch')
-        U.post('sign-times-modulus-is-v', list(p.pc), s_ * absv == v0)
+        U.post('sign-times-modulus-is-v', list(p.pc), s_ * absv == v0, qf=True)
         U.lemmas.append('rmul(x, y) = x * y (the abstract product of the element theory is the real product)')
         U.canary('canary-everywhere-v', ctx + facts + mdef + [Q(d - 1)] + powfact, T.ent(T.chain(R, ix, d - 1), 0, 0) == T.rmul(s_, absv), axioms=AXE)
 
@@ -169,7 +175,7 @@ def u_const(U):
             powfact = [wpow(d - 1) == 1]
         U.post('every-entry-is-s*w^d', ctx + facts + mdef + [Q(d - 1)] + powfact,
                T.ent(T.chain(R, ix, d - 1), 0, 0) == T.rmul(s_, absv), axioms=AX, mode='ematch')
-        U.post('sign-times-modulus-is-v', list(p.pc), s_ * absv == v0)
+        U.post('sign-times-modulus-is-v', list(p.pc), s_ * absv == v0, qf=True)
         U.lemmas.append('rmul(x, y) = x * y (the abstract product of the element theory is the real product)')
         U.canary('canary-every-entry-is-w', ctx + facts + mdef + [Q(d - 1)] + powfact, T.ent(T.chain(R, ix, d - 1), 0, 0) == w, axioms=AX)
 
